@@ -31,6 +31,8 @@ func main() {
 		err = cmdAPIAuth(os.Args[2:])
 	case "mcp":
 		err = cmdMCP(os.Args[2:])
+	case "lockstep":
+		err = cmdLockstep(os.Args[2:])
 	default:
 		err = fmt.Errorf("unknown subcommand %q", os.Args[1])
 	}
